@@ -7,7 +7,7 @@ from dateutil import parser as date_parser
 from dateutil.relativedelta import relativedelta
 from typing import Dict, List, Literal, Any, Callable
 from math import trunc, ceil, floor
-from decimal import Decimal, ROUND_HALF_UP, ROUND_UP, ROUND_DOWN
+from decimal import Context, Decimal, ROUND_HALF_UP, ROUND_UP, ROUND_DOWN
 from itertools import zip_longest
 
 
@@ -334,7 +334,9 @@ class AbstractExcelInPython(ABC):
     def _round_decimal(number: float, num_digits: int, rounding: str):
         # the shortest decimal representation of the number is rounded, as Excel does, not its binary expansion
         decimal_number = Decimal(repr(number)) if isinstance(number, float) else Decimal(int(number))
-        result = decimal_number.quantize(Decimal(1).scaleb(-int(num_digits)), rounding=rounding)
+        # enough precision for every digit of the result (the default context allows 28)
+        context = Context(prec=max(28, decimal_number.adjusted() + int(num_digits) + 2))
+        result = decimal_number.quantize(Decimal(1).scaleb(-int(num_digits)), rounding=rounding, context=context)
         return float(result) if isinstance(number, float) else int(result)
 
     def _round(self, number: float, num_digits: int):
